@@ -238,6 +238,8 @@ pub fn run(ctx: &mut Ctx) {
         ctx.st.count("shape:members-exercised");
         for round in 0..rounds {
             let mut cfg = base.clone();
+            cfg.cs_ok = r.pick(shapes::CS_OK_TEXTS).to_string();
+            cfg.cs_bad = r.pick(shapes::CS_BAD_TEXTS).to_string();
             for k in 0..3 {
                 cfg.values[k] = if round % 3 == 0 { r.pick(U_VALUES).to_string() } else { gen::mixed_string(&mut r, 0, 8, 50) };
             }
